@@ -13,6 +13,7 @@ chronicle.append recorder, worker processes (they answer what the explorer
 chooses), reactor timers, wall clock.
 '''
 
+import copy
 import os
 import struct
 
@@ -34,6 +35,11 @@ from twisted.internet.address import IPv4Address
 from twisted.internet.error import ConnectionDone
 from twisted.internet.testing import StringTransport
 from twisted.python.failure import Failure
+
+
+KNOWN_NODE_ATTRS = frozenset((
+    'alg', 'ancestry', 'do', 'doing', 'event', 'factory', 'feedback', 'fired', 'level', 'parents', 'period',
+    'runid', 'shape', 'status', 'todo', 'visitors', 'been_here'))
 
 
 class StubFSM:
@@ -286,7 +292,7 @@ class PipeWorld:
                 self.nodes[n.tag] = n
         missing = set(self.eng.tags()) - set(self.nodes)
         if missing:
-            raise common.HarnessBroken(f'nodes missing from the DAG: {missing}')
+            raise common.GraphMismatch(f'algorithms declared by the engine but missing from the task graph: {sorted(missing)}')
         if self.clock is not None:
             from . import world
             world.reset_reactor()
@@ -302,12 +308,20 @@ class PipeWorld:
                 tag, tuple(n.get('todo')), tuple(sorted(n.get('doing'))),
                 tuple(sorted(n.get('do'))), n.get('status').name,
                 n.get('runid'), n.get('event')))
+        # anything else the code keeps on a node (state the harness does not
+        # know about) is carried along, so that snapshots stay faithful
+        extra = []
+        for tag in sorted(self.nodes):
+            for k, v in sorted(self.nodes[tag].attrib.items()):
+                if k not in KNOWN_NODE_ATTRS:
+                    extra.append((tag, k, copy.deepcopy(v)))
         workers = []
         for h in farm._workers:
             c = self._conn_of(h)
             workers.append((c.rev, c.hand.address.host))
         return {
             'nodes': tuple(nodes),
+            'node_extra': tuple(extra),
             'que': tuple(n.tag for n in schedule.que),
             'per': tuple(n.tag for n in schedule.per),
             'paused': schedule.pipeline_paused,
@@ -352,6 +366,10 @@ class PipeWorld:
                 n.attrib.pop('event', None)
             else:
                 n.set('event', event)
+            for k in [k for k in n.attrib if k not in KNOWN_NODE_ATTRS]:
+                del n.attrib[k]
+        for tag, k, v in s.get('node_extra', ()):
+            self.nodes[tag].set(k, copy.deepcopy(v))
         schedule.que = [self.nodes[t] for t in s['que']]
         schedule.per = [self.nodes[t] for t in s['per']]
         schedule.pipeline_paused = s['paused']
@@ -408,7 +426,8 @@ class PipeWorld:
                 tuple((m.jobid, m.target, m.runid) for m in s['cluster']),
                 tuple(sorted(s['busy'])), s['archive'], s['workers'], inflight,
                 s['active'], s['crew_wait'], s['rev'],
-                None if s.get('timed') is None else tuple(sorted(s['timed'].items())))
+                None if s.get('timed') is None else tuple(sorted(s['timed'].items())),
+                tuple((t, k, repr(v)) for t, k, v in s.get('node_extra', ())))
 
     def _conn_of(self, hand):
         for c in self.conns:
